@@ -40,6 +40,7 @@ class Result(object):
         self.samples = []
         self.outcomes = {}     # outcome label -> count (to expose vacuity)
         self.notes = []
+        self.sigcount = {}     # signature -> number of violating cases
 
     def count(self, key, n=1):
         self.counters[key] = self.counters.get(key, 0) + n
@@ -48,7 +49,10 @@ class Result(object):
         self.outcomes[label] = self.outcomes.get(label, 0) + n
 
     def violation(self, part, sig, msg, case):
-        if len(self.violations) < 2000:
+        # keep at most 25 cases per signature (a prolific signature must not push out others);
+        # the number of cases per signature is still counted
+        self.sigcount[sig] = self.sigcount.get(sig, 0) + 1
+        if self.sigcount[sig] <= 25:
             self.violations.append({"part": part, "sig": sig, "msg": msg, "case": case})
         self.count("violations_raw")
 
@@ -61,7 +65,11 @@ class Result(object):
             self.counters[k] = self.counters.get(k, 0) + v
         for k, v in other.outcomes.items():
             self.outcomes[k] = self.outcomes.get(k, 0) + v
-        self.violations.extend(other.violations)
+        for v in other.violations:
+            if sum(1 for w in self.violations if w["sig"] == v["sig"]) < 25:
+                self.violations.append(v)
+        for k, v in getattr(other, "sigcount", {}).items():
+            self.sigcount[k] = self.sigcount.get(k, 0) + v
         for s in other.samples:
             if len(self.samples) < 6:
                 self.samples.append(s)
@@ -138,10 +146,11 @@ def finish(ctx):
     for sig in sorted(groups):
         vs = groups[sig]
         first = min(vs, key=lambda v: len(json.dumps(v["case"], default=str)))
+        ncases = res.sigcount.get(sig, len(vs))
         if sig in known:
             known_seen.append(sig)
             print("KNOWN-FINDING: property=%s sig=%s (%d cases) %s | first: %s"
-                  % (ctx.prop, sig, len(vs), known[sig], _one_line(first["msg"])))
+                  % (ctx.prop, sig, ncases, known[sig], _one_line(first["msg"])))
             continue
         new += 1
         d = os.path.join(REPLAY_DIR, ctx.prop)
@@ -150,9 +159,9 @@ def finish(ctx):
         path = os.path.join(d, h + ".json")
         with open(path, "w") as fp:
             json.dump({"property": ctx.prop, "part": first["part"], "sig": sig,
-                       "msg": first["msg"], "case": first["case"], "count": len(vs)},
+                       "msg": first["msg"], "case": first["case"], "count": ncases},
                       fp, indent=1, default=str)
-        print("  violation sig=%s (%d cases): %s" % (sig, len(vs), _one_line(first["msg"], 600)))
+        print("  violation sig=%s (%d cases): %s" % (sig, ncases, _one_line(first["msg"], 600)))
         print("VIOLATION property=%s replay=%s" % (ctx.prop, os.path.relpath(path, ROOT)))
     cov = dict(ctx.coverage)
     cov.setdefault("evaluations", res.counters.get("evaluations", 0))
